@@ -39,7 +39,8 @@ MANIFEST = dict(
          'expression that creates an Angle, none unclassified. (b) Frame theorem: with a mutation census in which no method reachable with '
          'a frozen receiver writes its receiver, an argument or a copy() of either, frozen objects never change and non-receivers are never '
          'written; the hash of a frozen object (a function of all of its slots and nothing else, mutable classes unhashable) is the same '
-         'after every history and equal for equal values; no class of a frozen object defines an in-place operator. Copy theorem on a heap '
+         'after every history and equal for equal values; no class of a frozen object defines an in-place operator; two objects of one family '
+         'with identical slots compare == (per-slot comparisons read from __eq__, each accepting a difference of zero). Copy theorem on a heap '
          'with aliasing, and the VALUE of a copy (class, every slot; angles: same real value, in range). (c) format_float on every dyadic: '
          'text is -?digits(.1-6 digits), no trailing zero, no exponent; "-0" is printed IF AND ONLY IF the input is in the carved-out class; '
          'value within 5e-7 of x. parse_vec_str applied to three formatted numbers in any documented bracket style with any whitespace '
@@ -54,7 +55,8 @@ MANIFEST = dict(
          'and c05_property only; frame, copy, hash, format, parse and __format__ theorems are axiom-free. Assumptions: operands of the modulo '
          'are finite; printf("%.6f"), format() and float() are correctly rounded; only plain-decimal fields are predicted by the parse model; '
          'only the public API is used. Not modelled: float VALUES of rotations (sin/cos/atan2; only finiteness assumed, searched), what '
-         'format(value, spec) itself prints (Python\'s; only the post-processing is modelled), == (tolerance 1e-6; searched), the Cython '
+         'format(value, spec) itself prints (Python\'s; only the post-processing is modelled), == against tuples and the relation of == to the hash '
+         '(== of two objects with identical slots is proved from the comparisons read from __eq__), the Cython '
          'twin. Known findings kept: format_float / str / __format__(".Nf") print "-0" on negative values that round to zero (suite pins '
          'str); == within the tolerance does not imply equal hashes (inherent to a tolerance equality).',
 )
